@@ -120,7 +120,7 @@ Text(sp, layout) ==
 (* assignments of the members the faulty tree mentions, the fault's own members fixed *)
 FaultAssignments(t2) ==
   {[m \in DOMAIN a \cup (DOMAIN FaultEnv \cap Mentions(t2)) |-> IF m \in DOMAIN FaultEnv THEN FaultEnv[m] ELSE a[m]] :
-     a \in Assignments(Mentions(t2) \ DOMAIN FaultEnv)}
+     a \in Assignments((Mentions(t2) \cap Members) \ DOMAIN FaultEnv)}
 
 CompileCase(t, p, f) ==
   LET sp == Spliced(t, p, f)
